@@ -439,6 +439,44 @@ def _check_frame_shift(inp, res, df, pos_columns, mpp, fps, ML):
         em0, im0 = run(df)
     except Exception:
         return                                          # judged by the ensemble check
+    # the same trajectories with the position columns called otherwise (pos_columns=new names): the
+    # result columns are named after them, the numbers are the same
+    cols0 = list(pos_columns) if pos_columns is not None else None
+    if cols0 is not None and (len(df) + int(f0)) % 3 == 0:
+        new = [["x0", "x1", "x2"], ["xc", "yc", "zc"], ["x_um", "y_um", "z_um"], ["col", "row", "plane"],
+               ["X", "Y", "Z"]][(len(df) // 3) % 5][:len(cols0)]
+        fwd = dict(zip(cols0, new))
+        try:
+            tab = df.rename(columns=fwd)
+            em1 = emsd(tab, _mpp_arg(inp, mpp), float(fps), ML, detail=True, pos_columns=new)
+            im1 = imsd(tab, _mpp_arg(inp, mpp), float(fps), ML, pos_columns=new)
+        except Exception as e:
+            res.violation("property-violation", "position columns called %s: %s: %s (no exception with "
+                          "%s)" % (new, type(e).__name__, str(e)[:200], cols0), impl=repr(e),
+                          broken="defect-class msd/renamed-columns",
+                          signature=dict(fn="emsd", what="renamed-columns-exception"))
+            return
+        res.stat("renamed_columns_compared")
+        back = {}
+        for a, b in zip(new, cols0):
+            back["<%s>" % a] = "<%s>" % b
+            back["<%s^2>" % a] = "<%s^2>" % b
+        em1 = em1.rename(columns=back)
+        bad = None
+        if list(em1.columns) != list(em0.columns) or len(em1) != len(em0):
+            bad = "emsd: columns/rows change (%s)" % list(em1.columns)
+        else:
+            for name, a, b in (("emsd", em0, em1), ("imsd", im0, im1)):
+                va, vb = a.values.astype(float), b.values.astype(float)
+                if va.shape != vb.shape or not ((np.isnan(va) & np.isnan(vb))
+                                                | np.isclose(va, vb, rtol=1e-12, atol=0)).all():
+                    bad = "%s values differ" % name
+                    break
+        if bad:
+            res.violation("property-violation", "position columns called %s instead of %s: %s"
+                          % (new, cols0, bad), impl=bad, broken="defect-class msd/renamed-columns",
+                          signature=dict(fn="emsd", what="renamed-columns"))
+            return
     for k in shifts:
         tab = df.copy()
         tab["frame"] = tab["frame"] + k
